@@ -1,6 +1,9 @@
 package props
 
 import (
+	"bytes"
+	"io"
+	"os"
 	"testing"
 
 	"github.com/Trisia/randomness/detect"
@@ -17,6 +20,7 @@ type c10Case struct {
 	NumByte  int        `json:"num_byte,omitempty"`
 	Seed     uint64     `json:"seed,omitempty"`
 	PlanKind string     `json:"plan_kind"`
+	Source   string     `json:"source,omitempty"` // "" = the harness's chunking reader; "bytes.Reader@offset" / "os.File@offset" = standard readers positioned behind a header
 }
 
 func drawPlan(t *rapid.T, sampleBytes int) (string, []int) {
@@ -72,9 +76,35 @@ func checkC10(c c10Case) (Outcome, error) {
 	}
 	out := Outcome{Classes: []string{"workflow:" + name, "plan:" + c.PlanKind, "target:" + sc.Target}}
 	vRef, eRef := w.Seq(gen.NewReader(stream))
-	r := gen.NewReader(stream)
-	r.Plan = sc.Plan
-	v, e := fn(r)
+	var v bool
+	var e error
+	switch c.Source {
+	case "bytes.Reader@offset", "os.File@offset":
+		// a plain library reader that also implements io.ReaderAt / io.Seeker, positioned behind a header of hostile bytes
+		// (zeros); the workflow must judge what Read delivers from the current position on
+		out.Classes = append(out.Classes, "source:"+c.Source)
+		hdr := make([]byte, 1+int(c.Seed%4096))
+		full := append(append([]byte{}, hdr...), stream...)
+		if c.Source == "os.File@offset" {
+			f, err := os.CreateTemp(envOr("VERIF_SCRATCH", os.TempDir()), "c10-*.bin")
+			if err != nil {
+				return Outcome{Skip: "cannot create scratch file"}, nil
+			}
+			defer os.Remove(f.Name())
+			defer f.Close()
+			_, _ = f.Write(full)
+			_, _ = f.Seek(int64(len(hdr)), io.SeekStart)
+			v, e = fn(f)
+		} else {
+			br := bytes.NewReader(full)
+			_, _ = br.Seek(int64(len(hdr)), io.SeekStart)
+			v, e = fn(br)
+		}
+	default:
+		r := gen.NewReader(stream)
+		r.Plan = sc.Plan
+		v, e = fn(r)
+	}
 	out.NonTrivial = vRef || namedItem(eRef) != 0
 	if vRef {
 		out.Classes = append(out.Classes, "full-read:true")
@@ -117,7 +147,13 @@ func genC10(t *rapid.T) c10Case {
 	}
 	kind, plan := drawPlan(t, sc.wf().SampleBytes)
 	sc.Plan = plan
-	return c10Case{Stream: sc, PlanKind: kind}
+	c := c10Case{Stream: sc, PlanKind: kind}
+	if rapid.IntRange(0, 3).Draw(t, "stdsource") == 0 {
+		c.Source = rapid.SampledFrom([]string{"bytes.Reader@offset", "os.File@offset"}).Draw(t, "source")
+		c.Seed = rapid.Uint64().Draw(t, "hdr")
+		c.PlanKind = "full"
+	}
+	return c
 }
 
 func TestC10(t *testing.T) { runPropJ(t, "C10", genC10, checkC10, true) }
